@@ -1073,3 +1073,42 @@ def driver_clause(vals, clause, stop="default", dtlocal=False, implicit=False, i
     if clause in ("start", "start-only", "zero-step") and len(res):
         ok = ok and close(res[0].data[0], q0, rtol=1e-13)
     return ok
+
+
+def purity_clause(vals, clause, integrator=None):
+    """C08 on the real driver (small convection problem)"""
+    import flowdyn.integration as ti
+    name = integrator or "explicit"
+    msh, model, disc, f0, cls = _driver_problem(integrator=name)
+    cfl = 0.5
+    dt = cfl / msh.ncell
+    if clause == "restart":
+        s = cls(msh, disc)
+        r1 = s.solve(f0, cfl, stop={"maxit": 7})
+        r2 = s.restart(r1[-1], cfl, stop={"maxit": 5})
+        s2 = cls(msh, disc)
+        r3 = s2.solve(f0, cfl, stop={"maxit": 12})
+        show(integrator=name, totnit_after_restart=s.totnit(), it=r2[-1].it, reference_it=r3[-1].it,
+             max_diff=float(np.max(np.abs(r2[-1].data[0] - r3[-1].data[0]))))
+        return s.totnit() == 12 and r2[-1].it == 12 and close(r2[-1].data[0], r3[-1].data[0], rtol=1e-13) and close(r2[-1].time, r3[-1].time)
+    if clause == "repeat":
+        s = cls(msh, disc)
+        a = s.solve(f0, cfl, stop={"maxit": 6})[-1].data[0].copy()
+        b = s.solve(f0, cfl, stop={"maxit": 6})[-1].data[0].copy()
+        c = cls(msh, disc).solve(f0, cfl, stop={"maxit": 6})[-1].data[0].copy()
+        show(integrator=name, same_object_difference=float(np.max(np.abs(a - b))), fresh_object_difference=float(np.max(np.abs(a - c))))
+        return bool(np.all(a == b)) and bool(np.all(a == c))
+    if clause == "observer":
+        a = cls(msh, disc).solve(f0, cfl, [6 * dt])[-1].data[0].copy()
+        b = cls(msh, disc).solve(f0, cfl, [0.3 * dt, 1.5 * dt, 2.2 * dt, 2.6 * dt, 6 * dt])[-1].data[0].copy()
+        show(integrator=name, difference_with_extra_snapshots=float(np.max(np.abs(a - b))))
+        return bool(np.all(a == b))
+    if clause in ("monitor", "monitor-trajectory"):
+        mons = {"res": {"type": "residual", "frequency": 3}, "avg": {"type": "data_average", "data": "q", "frequency": 2}}
+        s = cls(msh, disc)
+        a = s.solve(f0, cfl, stop={"maxit": 7}, monitors=mons)[-1].data[0].copy()
+        b = cls(msh, disc).solve(f0, cfl, stop={"maxit": 7})[-1].data[0].copy()
+        its_r, its_a = mons["res"]["output"]._it, mons["avg"]["output"]._it
+        show(integrator=name, residual_its=its_r, average_its=its_a, difference=float(np.max(np.abs(a - b))))
+        return bool(np.all(a == b)) and its_r == [0, 3, 6] and its_a == [0, 2, 4, 6]
+    return True
